@@ -25,7 +25,7 @@ from ..core import Violation, HarnessError, check, close, maxdiff, fingerprint
 
 THEORIES = [("stR", {}), ("stR", {"as_operators": True}), ("stR", {"secular_relaxation": True}), ("stR", {"time_dependent": True}),
             ("stF", {}), ("stF", {"time_dependent": True}), ("cRF", {"coupling_cutoff": 50.0}),
-            ("stR", {"time_dependent": True, "as_operators": True})]
+            ("stR", {"time_dependent": True, "as_operators": True}), ("cRF", {"time_dependent": True})]
 TOL = 1e-11
 
 
@@ -203,6 +203,14 @@ def evaluate(expr, systems, shared=None):
         rho = B.state(expr["sys"], expr["state"]) if shared is not None else qr.ReducedDensityMatrix(data=state_array(ham.dim, expr["state"]))
         ev = kp.propagate(rho)
         return {"rhot": numpy.array(ev.data)}
+    if kind == "refused_heom":
+        from quantarhei.qm.liouvillespace.heom import KTHierarchy, KTHierarchyPropagator
+        agg = B.system(expr["sys"])
+        H2 = B.plain_hamiltonian(expr["sys"]) if shared is not None else qr.Hamiltonian(data=numpy.array(agg.get_Hamiltonian().data))
+        hy = KTHierarchy(H2, agg.get_SystemBathInteraction(), expr["depth"])
+        kp = KTHierarchyPropagator(qr.TimeAxis(0.0, expr["nt"], 1.0), hy)
+        rho = qr.ReducedDensityMatrix(data=state_array(H2.dim, {"kind": "site", "k": 0}))
+        return {"rhot": numpy.array(kp.propagate(rho).data)}
     if kind == "eso":
         RT, ham = B.tensor(expr["sys"], expr["th"], expr.get("unit")) if shared is None else shared.get_tensor(expr["sys"], expr["th"])
         U = qr.qm.EvolutionSuperOperator(time=qr.TimeAxis(0.0, expr["nt"], expr["dt"]), ham=ham, relt=RT, mode="all")
@@ -212,14 +220,31 @@ def evaluate(expr, systems, shared=None):
     raise HarnessError("unknown expression kind " + kind)
 
 
+def pure_dephasing(dim, kind):
+    from quantarhei.qm import PureDephasing
+    if not kind:
+        return None
+    gam = 1.0 / 150.0 if kind == "Lorentzian" else 1.0 / 150.0 ** 2
+    d = numpy.zeros((dim, dim))
+    for a in range(dim):
+        for b in range(a + 1, dim):
+            d[a, b] = d[b, a] = gam / (1.0 + 0.5 * (b - a - 1))
+    return PureDephasing(d, dtype=kind)
+
+
 def make_rdm_prop(B, pexpr):
     import quantarhei as qr
     agg = B.system(pexpr["sys"])
     axis = qr.TimeAxis(0.0, pexpr["nt"], pexpr["dt"])
+    pd = pure_dephasing(agg.get_Hamiltonian().dim, pexpr.get("pdeph"))
     if pexpr["th"] is None:
-        return qr.ReducedDensityMatrixPropagator(axis, agg.get_Hamiltonian())
+        if pd is None:
+            return qr.ReducedDensityMatrixPropagator(axis, agg.get_Hamiltonian())
+        return qr.ReducedDensityMatrixPropagator(axis, agg.get_Hamiltonian(), PDeph=pd)
     RT, ham = B.tensor(pexpr["sys"], pexpr["th"], pexpr.get("unit"))
-    return qr.ReducedDensityMatrixPropagator(axis, ham, RTensor=RT)
+    if pd is None:
+        return qr.ReducedDensityMatrixPropagator(axis, ham, RTensor=RT)
+    return qr.ReducedDensityMatrixPropagator(axis, ham, RTensor=RT, PDeph=pd)
 
 
 def fork_eval(expr, systems, timeout=120.0):
@@ -274,7 +299,8 @@ class World:
                        "system_used_by_two_theories", "time_dependent_tensor", "operator_form_tensor", "cutoff_theory",
                        "refinement_setting_sticky", "sv_reused", "pop_reused", "eso_after_propagation", "in_between_computation",
                        "same_call_repeated", "propagation_matrix_with_corrections", "propagation_inside_basis_context",
-                       "same_propagator_in_two_different_contexts", "tensor_requested_inside_units_context"]
+                       "same_propagator_in_two_different_contexts", "tensor_requested_inside_units_context", "pure_dephasing_propagator",
+                       "refused_call_in_history"]
     required_faults = []
     components = {
         "real": ["Aggregate/Molecule builders", "OpenSystem.get_RelaxationTensor (stR TI/TD, operator form, secular; stF TI/TD; cRF with cut-off)",
@@ -309,12 +335,15 @@ class World:
         n = rng.randint(3, 12)
         ops = []
         kinds = ["tensor", "tensor", "make_rdm", "make_rdm", "propagate_rdm", "propagate_rdm", "propagate_rdm", "set_ref", "rates",
-                 "thermal", "propagate_sv", "propagate_pop", "pop_matrix", "make_heom", "propagate_heom", "propagate_heom", "eso"]
+                 "thermal", "propagate_sv", "propagate_pop", "pop_matrix", "make_heom", "propagate_heom", "propagate_heom", "eso",
+                 "propagate_rdm", "set_ref"]
         if rng.random() < 0.5:
             kinds = [k for k in kinds if k not in rng.sample(["propagate_sv", "propagate_pop", "pop_matrix", "make_heom", "eso", "rates", "thermal"], 3)]
-        for _ in range(n):
-            k = rng.choice(kinds)
-            op = {"op": k, "sys": rng.randrange(nsys), "a": rng.randrange(16), "b": rng.randrange(16)}
+        # most histories start with the usual pipeline (tensor -> propagator -> propagation), so that later ops find objects to reuse
+        pipeline = ["tensor", "make_rdm", "propagate_rdm"] if rng.random() < 0.65 else []
+        for step in range(n + len(pipeline)):
+            k = pipeline[step] if step < len(pipeline) else rng.choice(kinds)
+            op = {"op": k, "sys": 0 if step < len(pipeline) else rng.randrange(nsys), "a": rng.randrange(16), "b": rng.randrange(16)}
             if k == "tensor":
                 op["th"] = rng.choice(ths)
                 op["unit"] = rng.choice([None, None, "1/cm", "1/cm", "eV"])
@@ -322,9 +351,10 @@ class World:
                 op["nt"] = rng.choice([20, 50, 100])
                 op["mult"] = rng.choice([1, 1, 2])
                 op["free"] = rng.random() < 0.15
+                op["pdeph"] = rng.choice([None, None, "Lorentzian", "Gaussian"])
             elif k in ("propagate_rdm",):
                 op["state"] = {"kind": rng.choice(["site", "site", "coh"]), "k": rng.randrange(4)}
-                op["nref_arg"] = rng.choice([1, 1, 1, 2, 3])
+                op["nref_arg"] = rng.choice([1, 1, 2, 3])
                 op["new_state"] = rng.random() < 0.4
                 op["ctx"] = rng.choice([None, None, None, {"kind": "ham"}, {"kind": "other", "seed": rng.randrange(4)}])
             elif k == "set_ref":
@@ -338,6 +368,7 @@ class World:
             elif k == "make_heom":
                 op["depth"] = rng.choice([1, 2, 2, 3])
                 op["nt"] = rng.choice([20, 40])
+                op["norwa"] = rng.random() < 0.2
             elif k == "propagate_heom":
                 op["state"] = {"kind": rng.choice(["site", "coh"]), "k": rng.randrange(4)}
                 op["new_state"] = rng.random() < 0.4
@@ -420,8 +451,10 @@ class Runner:
                     tslot = [n for n, t in enumerate(tensors) if t[0] == j][op["a"] % len(mine)]
                     th = tensors[tslot][1]
                 nt = min(op["nt"], spec["nt"] // op["mult"])
+                td = th is not None and THEORIES[th][1].get("time_dependent")
                 props.append({"sys": j, "th": th, "unit": None if tslot is None else tensors[tslot][2], "tslot": tslot, "nt": nt,
-                              "dt": spec["dt"] * op["mult"], "nref": 1})
+                              "dt": spec["dt"] * op["mult"], "nref": 1,
+                              "pdeph": None if (td or th is None) else op.get("pdeph")})
                 plan.append(("make_rdm", None, len(props) - 1))
             elif k == "set_ref":
                 if not props:
@@ -443,7 +476,8 @@ class Runner:
                 td = P["th"] is not None and THEORIES[P["th"]][1].get("time_dependent")
                 nref_arg = 1 if td else op["nref_arg"]
                 nref_setting = 1 if td else P["nref"]
-                expr = {"kind": "propagate_rdm", "prop": {"sys": P["sys"], "th": P["th"], "unit": P["unit"], "nt": P["nt"], "dt": P["dt"]},
+                expr = {"kind": "propagate_rdm", "prop": {"sys": P["sys"], "th": P["th"], "unit": P["unit"], "nt": P["nt"], "dt": P["dt"],
+                                                          "pdeph": P.get("pdeph")},
                         "state": op["state"], "nref_setting": nref_setting, "nref_arg": nref_arg, "ctx": op.get("ctx")}
                 if nref_arg > 1:
                     P["nref"] = nref_arg            # documented: propagate(Nref>1) sets the refinement
@@ -455,6 +489,11 @@ class Runner:
                 expr = {"kind": "pop_matrix", "sys": j, "nt": op["nt"], "dt": spec["dt"], "corr": op["corr"], "m": op["m"]}
                 plan.append((k, expr, bool(op["new"])))
             elif k == "make_heom":
+                if op.get("norwa"):
+                    # a hierarchy for a Hamiltonian built from a matrix (no rotating-wave reference): the constructor of the
+                    # propagator refuses it; a refused call must leave the Hamiltonian it was given alone
+                    plan.append(("refused_heom", {"kind": "refused_heom", "sys": j, "depth": op["depth"], "nt": op["nt"]}, None))
+                    continue
                 heoms.append({"sys": j, "depth": op["depth"], "nt": op["nt"], "dt": 1.0})
                 plan.append(("make_heom", None, len(heoms) - 1))
             elif k == "propagate_heom":
@@ -502,6 +541,9 @@ class Runner:
             out["state%s" % (key,)] = ([numpy.array(rho.data)], repr(rho.get_current_basis()))
         for key, pp in self.shared.pop_props.items():
             out["pop%s" % (key,)] = ([numpy.array(pp.KK)], "")
+        for j, H2 in self.shared.plain.items():
+            out["plainH%d" % j] = ([numpy.array(H2.data)], repr((bool(H2.has_rwa), None if H2.rwa_indices is None else [int(x) for x in H2.rwa_indices],
+                                                              bool(H2.is_basis_protected), H2.get_current_basis())))
         for n, hy in enumerate(self.shared.heom_hy):
             out["heom%d" % n] = ([numpy.array(hy.hinds), numpy.array(hy.Gamma)], repr(hy.hsize))
         return out
@@ -543,6 +585,9 @@ class Runner:
                     refs[key] = val
         # ---- history pass on shared objects
         self.shared = Shared(self.systems, self)
+        if any(k == "refused_heom" for (k, e, a) in plan):
+            for j in range(len(self.systems)):
+                self.shared.plain_hamiltonian(j)       # exists before any call it is handed to
         m0 = self.manager_state()
         used = {}
         seen_exprs = set()
@@ -577,7 +622,24 @@ class Runner:
                 key = json.dumps(expr, sort_keys=True)
                 ref = refs[key]
                 if ref is None:
-                    self.ctx.ev(i, k, "skipped-reference-fails")
+                    # the call does not complete on fresh inputs: it is a refused call; here it may fail or not, but it
+                    # must not change what it was given (checked below with all other inputs)
+                    self.shared.current = (k, expr, aux)
+                    try:
+                        evaluate(expr, self.systems, shared=self.shared)
+                        outcome = "completed"
+                    except HarnessError:
+                        raise
+                    except Exception as e:
+                        outcome = type(e).__name__
+                    self.ctx.probe("refused_call_in_history")
+                    self.ctx.ev(i, k, "reference-fails", outcome)
+                    after = self.fp_all()
+                    for name, f in before.items():
+                        check(self.same_inputs(after.get(name), f), "input-changed",
+                              lambda: "op %d (%s, a call that fails on fresh inputs): object '%s' changed" % (i, k, name))
+                    check(self.manager_state() == m0, "manager-state-changed",
+                          lambda: "op %d (%s): Manager state %r -> %r" % (i, k, m0, self.manager_state()))
                     continue
                 self.shared.current = (k, expr, aux)
                 try:
@@ -682,6 +744,7 @@ class Shared:
         self.heom_props = []
         self.sv_props = {}
         self.pop_props = {}
+        self.plain = {}
         self.current = None
         self.last_state_reused = False
         self.last_prop_reused = False
@@ -690,6 +753,12 @@ class Shared:
         if j not in self.sys:
             self.sys[j] = build_system(self.specs[j])
         return self.sys[j]
+
+    def plain_hamiltonian(self, j):
+        qr = self.r.qr
+        if j not in self.plain:
+            self.plain[j] = qr.Hamiltonian(data=numpy.array(self.system(j).get_Hamiltonian().data))
+        return self.plain[j]
 
     def new_tensor(self, j, th, unit=None):
         agg = self.system(j)
@@ -705,11 +774,15 @@ class Shared:
         qr = self.r.qr
         agg = self.system(P["sys"])
         axis = qr.TimeAxis(0.0, P["nt"], P["dt"])
+        pd = pure_dephasing(agg.get_Hamiltonian().dim, P.get("pdeph"))
+        kw = {} if pd is None else {"PDeph": pd}
         if P["tslot"] is None:
-            prop = qr.ReducedDensityMatrixPropagator(axis, agg.get_Hamiltonian())
+            prop = qr.ReducedDensityMatrixPropagator(axis, agg.get_Hamiltonian(), **kw)
         else:
             RT, ham = self.tensor_list[P["tslot"]]
-            prop = qr.ReducedDensityMatrixPropagator(axis, ham, RTensor=RT)
+            prop = qr.ReducedDensityMatrixPropagator(axis, ham, RTensor=RT, **kw)
+        if pd is not None:
+            self.r.ctx.probe("pure_dephasing_propagator")
         self.rdm_props.append(prop)
 
     def rdm_prop(self, pexpr):
